@@ -31,6 +31,27 @@ type c28Out struct {
 }
 
 func c28Program(r *rand.Rand, id string) string {
+	if r.Intn(10) == 0 {
+		// blocks that are never entered: loops with zero iterations, conditions that are false,
+		// a switch without a matching case - whatever was prepared for the body must be released
+		z := []string{
+			"while { false } { out never }\nout after\n",
+			"c28z = 5\nwhile { $c28z < 1 } { out never }\nout after\n",
+			"tout json ([]) -> foreach i { out never }\nout after\n",
+			"a [1..3] -> match nomatch -> foreach i { out never }\nout after\n",
+			"if { false } then { out never }\nout after\n",
+			"if { false } then { out never } else { out else }\nout after\n",
+			"!if { true } then { out never }\nout after\n",
+			"switch { case { false } then { out never } }\nout after\n",
+			"switch { case { false } then { out never }; default { out dflt } }\nout after\n",
+			"try { while { false } { out never } }\nout after\n",
+			"function c28z_" + id + " { while { false } { out never }; if { false } then { out never } }\nc28z_" + id + "\nc28z_" + id + "\n!function c28z_" + id + "\n",
+			"a [1..3] -> foreach i { while { false } { out never } }\nout after\n",
+			"false && while { true } { out never }\nout after\n",
+			"bg { while { false } { out never } }\nout after\n",
+		}
+		return z[r.Intn(len(z))]
+	}
 	if r.Intn(8) == 0 {
 		// bodies that are accepted when the program is parsed but fail when they are reached
 		// (dangling pipe / operator), and calls whose typed parameters cannot be converted:
@@ -84,7 +105,7 @@ func init() {
 	register(&Property{
 		ID:    "C28",
 		Level: "exploration",
-		Rule: "batches of 24 PRNG programs — && / || chains in normal, try and trypipe run modes (plain, in functions, in try / trypipe blocks), nested functions with break / continue / return, dataflow pipelines, foreach with early break, sub-shells, function / while / time / private bodies that only fail to parse when they are reached, calls whose typed parameters cannot be converted — executed concurrently from 2-8 goroutines in one murex process with PRNG scheduling yields at the process life-cycle hook points; observed: every `fid.register` / `fid.deregister` hook event, the live FID table sampled every 150 us while the programs run, and the table once the batch is quiet (bounded polling); " +
+		Rule: "batches of 24 PRNG programs — && / || chains in normal, try and trypipe run modes (plain, in functions, in try / trypipe blocks), nested functions with break / continue / return, dataflow pipelines, foreach with early break, sub-shells, function / while / time / private bodies that only fail to parse when they are reached, calls whose typed parameters cannot be converted, blocks that are never entered (while / foreach with zero iterations, false if / !if conditions, switch without a matching case; alone, in functions, loops, try and bg) — executed concurrently from 2-8 goroutines in one murex process with PRNG scheduling yields at the process life-cycle hook points; observed: every `fid.register` / `fid.deregister` hook event, the live FID table sampled every 150 us while the programs run, and the table once the batch is quiet (bounded polling); " +
 			"oracle: no function id is handed out twice during the life of the process, no two live table entries carry the same id, every id registered in the batch is deregistered, and no process descending from a finished program is left in the table; non-trivial = a batch containing try / trypipe / || / break / return / continue programs (the paths with hand-written deregistration); distinct by (batch, interleaving signature)",
 		Assumptions: []string{"quiescence is decided by bounded polling of the table (leftovers unchanged over 150 polls), not by a fixed sleep"},
 		Technique:   "runtime monitoring: hook event log (exactly-once register / deregister, unique ids) and live-table sampling under concurrent programs with injected yields",
